@@ -45,6 +45,8 @@ def make_cases(rnd, tier, progs):
                 body += [(tgt, mid, True), (tgt, "remove_idle_qubits", True)]
                 hist, nobs = modcheck.hist_with_obs(rnd, body, 1 if first_in_place else 2)
                 out.append(dict(src=src, hist=hist, nobs=nobs, family="remove-idle-again-after-a-removal"))
+    out += modcheck.chains(rnd, "removal-chains-on-renumbered-registers", lasts=("remove_idle_qubits", ("remove_idle_qubits", "unroll")),
+                           firsts=("remove_idle_qubits", "reverse_qubit_order"))
     return out
 
 
